@@ -56,9 +56,16 @@ CHECKS = {
  'C20': dict(cat='model_checking', ref='3/C20', tech='front-end compile matrix (goto-cc/gcc C99, clang++ C++17) + BMC-decided value/designation assertions in combined TUs',
    text='(1) compiles: 26 headers alone, all 650 ordered pairs and 3 full-set orders (alphabetical, reverse, VERIF_SEED-shuffled), as C and as C++ - front-end verdicts, not solver queries; macro redefinition between repository headers counts as a conflict. (2) keeps its meaning: in every ordered pair that compiles, every public enumerator, integer macro and sizeof of a public type is asserted equal to its header-alone value (one CBMC query per first header, one TU per pair); in the full-set orders every field enumerator is additionally checked through the real by-identifier reader on a symbolic buffer against the oracle bit range.',
    note='Trusted: the C/C++ front ends for the compile half; CBMC for the assertions. Subsets larger than pairs only through the full-set orders. The aaf/Aaf.h + aaf/Pcm.h legacy-name clash is a recorded known finding (4 entries).'),
+
+ 'C18': dict(cat='model_checking', ref='3/C18', tech=BMC + ' of the unmodified example receive paths with environment stubs',
+   text='Each listener source is #include-d unmodified into a wrapper TU and linked with the real library; recv delivers an arbitrary datagram (arbitrary length and content, arbitrary stale buffer tail), state carried between datagrams is arbitrary; obligations: every CBMC memory-safety check, every loop bound (an unwinding assertion a datagram can violate = no bound on work per datagram), no fatal status for a bad datagram, every datagram consumed. acf-can (UDP/raw x classic/FD), hello-world (UDP/raw), acf-vss (UDP/raw), cvf, aaf, crf (listener and talker mode); quick 1 datagram, thorough 2 consecutive datagrams.',
+   note=NOTE + ' Environment stubs (gen/listeners.py) are part of the claim. Bounds: acf-can received length <= 96/160 bytes, acf-vss <= 128 and cvf <= 160 bytes in the quick tier (1500 in thorough). crf-listener mclk_lookup() unboundedness is a recorded known finding.'),
+ 'C19': dict(cat='model_checking', ref='3/C19', tech=BMC + ': end-to-end talker builder -> wire bytes -> listener on symbolic CAN frames',
+   text='Symbolic classic/FD CAN frames (all ids incl. EFF/RTR, lengths, data, BRS/ESI) go through the unmodified talker packet builder (UDP header, init_cf_pdu, prepare_acf_packet, update_cf_length), the produced bytes through the unmodified listener new_packet(), and the frames captured from its write() are compared field by field; the control-format length field is compared with the sum of the padded message sizes. All 8 modes TSCF/NTSCF x UDP/raw x classic/FD; 1 frame per packet with everything symbolic, 2 (thorough 3) frames with the lengths of the leading frames enumerated concretely.',
+   note=NOTE + ' Valid input = what SocketCAN delivers; clock fixed; the talker main loop body is re-stated in the wrapper around the unmodified source.'),
 }
 NA = {}
-for i in (18,19):
+for i in ():
     NA['C%02d' % i] = 'check not built yet in this round (see DESIGN.md section 3 for the plan)'
 
 def main():
